@@ -5713,6 +5713,23 @@ impl<'a, const HAS_CR: bool> Parser<'a, HAS_CR> {
                         Some(b'\n' | b'\r') | None => {
                             // Property with value on next line - will be parsed in next iteration
                         }
+                        Some(b'#') => {
+                            // The same, with a comment after the property
+                            // (`--- &a # c`): it follows white space here, so it
+                            // is not the start of a plain scalar. It belongs to
+                            // the deferred value, like every other comment after
+                            // a property whose node is on the next line (#784).
+                            self.defer_line_comment();
+                            self.skip_to_eol();
+                        }
+                        Some(b'|' | b'>') => {
+                            // Property before a block scalar (`--- &a |`). The
+                            // plain-scalar arm below would stop at the first
+                            // `: ` in the scalar's text and leave the rest of it
+                            // behind as a second node. `parse_inline_document_value`
+                            // has the property-less `--- |` covered.
+                            self.parse_block_scalar(indent)?;
+                        }
                         // Keep this guard on one line: rustfmt splitting the
                         // `matches!` across lines gives the opening line its own
                         // coverage region that never reports as executed, even
@@ -6436,6 +6453,29 @@ mod tests {
             result.is_ok(),
             "explicit document start should parse: {result:?}"
         );
+    }
+
+    /// `--- &a` followed by a comment or by a block scalar header is still
+    /// one document. Both used to fall to the plain-scalar arm, which read the
+    /// comment as content and stopped at the first `: ` of the block scalar's
+    /// text, leaving a second document behind in either case.
+    #[test]
+    fn property_on_the_document_start_line_then_comment_or_block_scalar() {
+        for (yaml, expected) in [
+            (&b"--- &a # c\nk: v\n"[..], "{\"k\":\"v\"}"),
+            (b"--- !!map # c\nk: v\n", "{\"k\":\"v\"}"),
+            (b"--- &a |\n  x: y\n", "\"x: y\\n\""),
+            (b"--- !!str >-\n  x: y\n  z\n", "\"x: y z\""),
+            (b"--- &a |\n  x: y\n--- b\n", "[\"x: y\\n\",\"b\"]"),
+        ] {
+            let index = crate::yaml::YamlIndex::build(yaml).expect("should parse");
+            assert_eq!(
+                index.root(yaml).to_json_document(),
+                expected,
+                "input: {:?}",
+                core::str::from_utf8(yaml)
+            );
+        }
     }
 
     #[test]
